@@ -102,6 +102,11 @@ func balCases(tier string) []balCase {
 	for v := 0; v < 8; v++ {
 		cs = append(cs, balCase{kind: "growjoin", strat: "sticky", subIdx: v})
 	}
+	// sticky, a movement that is undone inside one plan (a partition goes A->B and back, or the loads turn
+	// around after a partition has moved): two settled groups, then growth plus joiners, each planned 25 times
+	for v := 0; v < 4; v++ {
+		cs = append(cs, balCase{kind: "undo", strat: "sticky", subIdx: v, n: 25})
+	}
 	if tier == "thorough" {
 		for v := 0; v < 216; v++ {
 			cs = append(cs, balCase{kind: "step", strat: "sticky", m: 3, t: 3, maxP: 6, n: 1, subIdx: v})
@@ -638,6 +643,8 @@ func (e *balanceEngine) Run(prop, tier string, seed int64, idx int) proto.Rec {
 		e.conflict(r)
 	case "growjoin":
 		e.growJoin(r, c)
+	case "undo":
+		e.undo(r, c)
 	case "duplists":
 		if prop != "C08" {
 			break // fairness is stated over subscription sets
@@ -1243,6 +1250,60 @@ func (e *balanceEngine) growJoin(r *balRun, c balCase) {
 					}
 				}
 			}
+		}
+	}
+}
+
+// undo: chains in which the sticky movement tracker has to forget a movement again.
+func (e *balanceEngine) undo(r *balRun, c balCase) {
+	type gen struct {
+		topics  map[string]int
+		members map[string][]string
+	}
+	chains := [][2]gen{
+		{{map[string]int{"t": 1, "w": 8, "bb": 6}, map[string][]string{"mA": {"t", "w"}, "mB": {"bb"}}},
+			{map[string]int{"t": 2, "w": 8, "bb": 6}, map[string][]string{"mA": {"t", "w"}, "mB": {"bb", "t"}, "mG": {"w"}}}},
+		{{map[string]int{"t0": 1, "t2": 5}, map[string][]string{"m1": {"t0", "t2"}}},
+			{map[string]int{"t0": 5, "t2": 5}, map[string][]string{"m0": {"t0"}, "m1": {"t0", "t2"}, "m2": {"t2"}, "m3": {"t2"}}}},
+		{{map[string]int{"t": 1, "w": 6, "bb": 4}, map[string][]string{"mA": {"t", "w"}, "mB": {"bb"}}},
+			{map[string]int{"t": 3, "w": 6, "bb": 4}, map[string][]string{"mA": {"t", "w"}, "mB": {"bb", "t"}, "mG": {"w"}, "mH": {"w", "bb"}}}},
+		{{map[string]int{"t0": 2, "t2": 6}, map[string][]string{"m1": {"t0", "t2"}}},
+			{map[string]int{"t0": 6, "t2": 6}, map[string][]string{"m0": {"t0"}, "m1": {"t0", "t2"}, "m2": {"t2"}, "m3": {"t2"}, "m4": {"t0"}}}},
+	}
+	ch := chains[c.subIdx%len(chains)]
+	build := func(g gen) *balInput {
+		in := &balInput{strat: "sticky", members: map[string]sarama.ConsumerGroupMemberMetadata{}, topics: map[string][]int32{}, prior: "none"}
+		for t, n := range g.topics {
+			in.topics[t] = seqParts(n)
+		}
+		for m, ts := range g.members {
+			in.members[m] = sarama.ConsumerGroupMemberMetadata{Topics: append([]string(nil), ts...)}
+		}
+		return in
+	}
+	for rep := 0; rep < c.n; rep++ {
+		in := build(ch[0])
+		plan, ok := r.plan(in)
+		if !ok {
+			return
+		}
+		r.check(in, plan)
+		fed := withUserData(in, plan, 1, rep%2 == 0)
+		next := build(ch[1])
+		next.prior = "step-grow+join"
+		for m, md := range next.members {
+			if old, ok := fed.members[m]; ok {
+				md.UserData = old.UserData
+				next.members[m] = md
+			}
+		}
+		p2, ok := r.plan(next)
+		if !ok {
+			return
+		}
+		r.check(next, p2)
+		if r.prop == "C13" {
+			r.stickiness(in, plan, next, p2, "grow+join", "")
 		}
 	}
 }
